@@ -354,8 +354,11 @@ def jcanon(v):
 
 # ----------------------------------------------------------------------------- generic shrinker
 
-def shrink_candidates(case):
-    """Yield structurally smaller variants of a JSON-like case."""
+NO_SHRINK_KEYS = {'kind', 'op', 'ops', 'm', 'fmt', 'mode', 'method', 'call', 'type', 'strand', 'rf', 'tag'}
+
+
+def shrink_candidates(case, keep=NO_SHRINK_KEYS):
+    """Yield structurally smaller variants of a JSON-like case (values under the keys in `keep` are left alone)."""
     def rec(v):
         if isinstance(v, list):
             for i in range(len(v)):
@@ -368,7 +371,7 @@ def shrink_candidates(case):
                     yield v[:i] + [y] + v[i + 1:]
         elif isinstance(v, dict):
             for k in v:
-                if k.startswith('_'):
+                if k.startswith('_') or k in keep:
                     continue
                 for y in rec(v[k]):
                     d = dict(v)
@@ -397,12 +400,18 @@ def shrink_candidates(case):
             yield c
 
 
-def shrink(case, still_fails, rounds=12, width=150):
+def shrink(case, still_fails, rounds=12, width=150, keep=NO_SHRINK_KEYS, valid=None):
     """still_fails: list[case] -> list[bool] (batch)."""
     cur = case
     for _ in range(rounds):
         cands = []
-        for c in shrink_candidates(cur):
+        for c in shrink_candidates(cur, keep):
+            if valid is not None:
+                try:
+                    if not valid(c):
+                        continue
+                except Exception:
+                    continue
             cands.append(c)
             if len(cands) >= width:
                 break
@@ -654,13 +663,18 @@ def main_check(prop_id, tier, seed, replay=None):
         small = r['case']
         try:
             if not r.get('noshrink') and model_built and not getattr(mod, 'NO_SHRINK', False):
-                small = shrink(r['case'], still)
+                def valid(c):
+                    if hasattr(mod, 'valid_case') and not mod.valid_case(c):
+                        return False
+                    mod.model_term(c)
+                    return True
+                small = shrink(r['case'], still, keep=NO_SHRINK_KEYS | set(getattr(mod, 'NO_SHRINK_KEYS', ())), valid=valid)
         except Exception:
             traceback.print_exc()
         rs, _ = evaluate_cases(mod, [small], tag='final') if (model_built and not r.get('noshrink')) else ([r], [])
         fr = rs[0]
         payload = {'property': prop_id, 'kind': 'failing-input', 'case': fr['case'], 'observed': fr['impl'],
-                   'expected_model': fr['model'], 'why': why, 'original_case': r['case'],
+                   'expected_model': fr['model'], 'why': ('property oracle: ' + str(mod.spec(fr['case'], fr['impl']))) if hasattr(mod, 'spec') and mod.spec(fr['case'], fr['impl']) else why, 'original_case': r['case'],
                    'broken': broken + ['correspondence %s' % prop_id], 'seed': seed, 'tier': tier,
                    'python': mod.python_snippet(fr['case']) if hasattr(mod, 'python_snippet') else None,
                    'other_failing_cases': len(real) - 1}
